@@ -372,6 +372,7 @@ class MultiTypeMap(dict):
         funcs.reverse()
 
         parents = []
+        entries = []
         for group, (func, codes) in zip(results, funcs):
             tups = (
                 [obj_t_tup]
@@ -383,11 +384,16 @@ class MultiTypeMap(dict):
                     self.errors[tup] = self.key_error(obj_t_tup, group)
                 break
             else:
-                for tup in tups:
-                    self[tup] = func
+                entries.extend((tup, func) for tup in tups)
             if not codes:
                 break
             parents = codes
+
+        # The entry for obj_t_tup itself comes last: its presence means that
+        # the entries call_next relies on are all there, even if this method
+        # is interrupted or runs concurrently.
+        for tup, func in reversed(entries):
+            self[tup] = func
 
         return True
 
